@@ -24,6 +24,7 @@ import io
 import json
 import os
 import random
+import re
 import shutil
 import subprocess
 import sys
@@ -155,6 +156,21 @@ def toml_dumps(t):
     return ''.join('%s = %s\n' % (json.dumps(k), toml_value(v)) for k, v in t.items())
 
 
+_PLAIN_NUMBERISH = re.compile(r'-?(\d+(\.\d+)?[eE][-+]?\d+|NaN|Infinity)$')
+
+
+def yaml_jsonish(t):
+    """flow-style YAML that looks like JSON: string values that read as JSON numbers / NaN / Infinity
+    but are plain *strings* for the YAML loader (1e3, NaN, -Infinity) are written bare"""
+    if isinstance(t, dict):
+        return '{' + ', '.join('%s: %s' % (json.dumps(k), yaml_jsonish(v)) for k, v in t.items()) + '}'
+    if isinstance(t, (list, tuple)):
+        return '[' + ', '.join(yaml_jsonish(v) for v in t) + ']'
+    if isinstance(t, str) and _PLAIN_NUMBERISH.match(t) and _yaml.safe_load(t) == t:
+        return t
+    return json.dumps(t)
+
+
 _REND = {}
 
 
@@ -175,7 +191,7 @@ def _renderings(fmt, t):
         elif fmt == 'python':
             out = [repr(t)]
         elif fmt == 'yaml':
-            out = [_yaml.safe_dump(t), _yaml.safe_dump(t, default_flow_style=True), json.dumps(t)]
+            out = [_yaml.safe_dump(t), _yaml.safe_dump(t, default_flow_style=True), json.dumps(t), yaml_jsonish(t)]
         elif fmt == 'toml':
             out = [toml_dumps(t)]
     except Exception:
@@ -190,12 +206,16 @@ def _renderings(fmt, t):
     return good
 
 
+_DEEP = '[' * 3000 + ']' * 3000          # nesting beyond any recursion limit
 MALFORMED = {
-    'json': ['{"a": 1', "{'a': 1}", '{"a": 1,}', '[1, 2', 'nope', '{"a": tru}', '{"a": 1} x'],
+    'json': ['{"a": 1', "{'a': 1}", '{"a": 1,}', '[1, 2', 'nope', '{"a": tru}', '{"a": 1} x', _DEEP],
     'python': ['{"a": 1', 'dict(a=1)', '[x for x in (1, 2)]', '{"a": true}', '1 +',
-               '__import__("os").getcwd()', '{"a": 1}.keys()'],
-    'yaml': ['{"a": {"b": "c"}', '[1, 2', 'a: b: c', '{{"a": {"b": "c"}}', 'a: [1\nb: 2', '"abc'],
-    'toml': ['a = ', '{"a": 1}', 'a = 1\na = 2', '[a', 'a = [1, 2', 'just words'],
+               '__import__("os").getcwd()', '{"a": 1}.keys()',
+               # these parse, but the value cannot be built (TypeError / RecursionError inside literal_eval)
+               '{[1, 2]: 3}', '{"a": {{}}}', '{{1: 2}}', '{"k": [{(1, [2]): 3}]}', '[' + '-' * 3000 + '1]'],
+    'yaml': ['{"a": {"b": "c"}', '[1, 2', 'a: b: c', '{{"a": {"b": "c"}}', 'a: [1\nb: 2', '"abc',
+             '{[1, 2]: 3}', 'd: 2001-13-45', 'x: !!binary "a"', _DEEP],
+    'toml': ['a = ', '{"a": 1}', 'a = 1\na = 2', '[a', 'a = [1, 2', 'just words', 'a = ' + _DEEP, 'd = 2001-13-45'],
 }
 
 
@@ -222,6 +242,9 @@ TARGETS = {
     'd4': {"a": {"b": "q\"uote'", "n": 0, "l": [{"x": 9, "y": "nine"}]}, "c": "", "d": [[1, 2], [3]],
            "f": 2.5, "t": True},
     'l1': [{"a": 1, "b": "u"}, {"a": 2, "b": "v"}],
+    # strings that a JSON reader would take for numbers (exponent without a dot, NaN, Infinity)
+    'y1': {"size": "1e3", "a": {"b": "1E5", "n": 5, "l": [{"x": "NaN", "y": "Infinity"}, {"x": "2e10", "y": "-Infinity"}]},
+           "c": "-1e-3", "d": ["1e3", "NaN", "7e0"], "e": {"k2": "3e8", "k1": 1}, "f": 1.25},
     's1': "just a string",
     'i1': 42,
     'f1': 2.5,
@@ -903,7 +926,7 @@ def worker(states):
 # code -> spec: random invocations recorded as rows
 # ---------------------------------------------------------------------------------------
 KEYS = ['a', 'b', 'c', 'd', 'e', 'k1', 'x', 'y', 'n']
-WORDS = ['', 'sea', 'bee', 'x y', 'café', 'q"uote', "it's", '0', 'nine', 'two\nlines']
+WORDS = ['1e3', 'NaN', '-Infinity', '2E5', '', 'sea', 'bee', 'x y', 'café', 'q"uote', "it's", '0', 'nine', 'two\nlines']
 
 
 INT_KEYS = [2, 9, 10, 33, 100, 4, 20]
@@ -1385,8 +1408,8 @@ def main(tier, seed):
         'file names (extensions .py .json .yml .toml .txt or none, drawn per run where the model says "any") designate '
         'nothing: only --spec-format / --target-format decide; --spec-file has no standard-input route ("-" is a missing file)',
         'documented command-line syntax ("[FLAGS] [spec [target]]", integer --indent): anything else (a third positional, '
-        'a non-integer indent, an unknown flag) must be a usage error without a result; an explicitly empty target '
-        'argument is not judged (observed: treated as absent, standard input is read)',
+        'a non-integer indent, an unknown flag) must be a usage error without a result; an empty positional designates '
+        'nothing, for the target as for the spec: it is as if absent (so standard input is read)',
         'targets are JSON-representable (python / YAML targets may have integer keys, python targets tuples); --scalar is '
         'judged for str, int and float results, not for None / bool (observed: Python spelling True / None, not JSON); '
         'TOML targets are tables without null',
